@@ -10,6 +10,11 @@ RECURSIVE Untag(_)
 Untag(it) == IF it.k = "tag" THEN Untag(it.x) ELSE it
 Fails(e) ==
   (IF e.panics # <<>> THEN {"panic"} ELSE {})
+  \* decoding is a function of the bytes: an earlier key (copied by value) is not changed by a later decode into the same variable, and
+  \* verdict and value do not depend on what the destination held before
+  \cup (IF ~e.priorstable THEN {"earlier-key-changed-by-a-later-decode-into-the-same-variable"} ELSE {})
+  \cup (IF e.usedacc # e.acc THEN {"verdict-depends-on-what-the-destination-held-before"} ELSE {})
+  \cup (IF e.acc /\ e.usedacc /\ e.reenc = "ok" /\ e.usedre # e.re THEN {"decoded-key-depends-on-what-the-destination-held-before"} ELSE {})
   \cup (IF ~e.acc THEN {} ELSE
         LET r0 == ParseAll(e.bytes)
             r == IF r0.ok THEN [ok |-> TRUE, item |-> Untag(r0.item)] ELSE [ok |-> FALSE, item |-> Null] IN   \* tags around the map are not excluded by the property
